@@ -10,7 +10,7 @@ Import ListNotations.
 
 (* all histories: once assembled, no later step (assemblies, cache hits, cache clears, parameter changes, ...) changes
    the cached weak form of an operator -- for any tables *)
-Theorem C18_cached_write_once : forall (T : tables) (h' : list op) (s : st) (i : nat) (d : desc),
+Theorem C18_cached_write_once : forall (T : tables), t_pure T = true -> forall (h' : list op) (s : st) (i : nat) (d : desc),
   observe s i = Some d -> observe (fold_left (step T) h' s) i = Some d.
 Proof. exact cached_write_once. Qed.
 Print Assumptions C18_cached_write_once.
@@ -87,7 +87,7 @@ Print Assumptions C18_memo_keys_refuted.
 (* for ANY tables whose FMM cache keys contain every input read while building the cached interface: for all histories
    the descriptor of an assembled FMM operator is computed from the two parameter objects (own, global) as they were at
    its construction / first assembly -- cache hits are indistinguishable from rebuilding *)
-Theorem C18_cache_key_sufficient : forall T : tables,
+Theorem C18_cache_key_sufficient : forall T : tables, t_pure T = true ->
   key_sufficient T CFmm = true -> key_sufficient T CFmmPotential = true ->
   forall h i o d, nth_error (s_ops (run T h)) i = Some o -> o_kind o = KFmm -> o_cached o = Some d ->
   exists po pg, o_snapshot o = Some po /\ o_gsnapshot o = Some pg /\
@@ -95,7 +95,7 @@ Theorem C18_cache_key_sufficient : forall T : tables,
 Proof. exact fmm_cache_transparent. Qed.
 Print Assumptions C18_cache_key_sufficient.
 
-Theorem C18_potential_cache_key_sufficient : forall T : tables,
+Theorem C18_potential_cache_key_sufficient : forall T : tables, t_pure T = true ->
   key_sufficient T CFmm = true -> key_sufficient T CFmmPotential = true ->
   forall h i o, nth_error (s_ops (run T h)) i = Some o -> o_kind o = KFmmPotential ->
   o_created o = at_time T KFmmPotential Create (o_cparams o) (o_gcparams o) ++
@@ -122,3 +122,24 @@ Print Assumptions C18_cache_keys_current.
 Theorem C18_fmm_global_reads_current : global_reads KFmm = [QReg] /\ global_reads KFmmPotential = [QReg].
 Proof. exact cur_fmm_global_reads. Qed.
 Print Assumptions C18_fmm_global_reads_current.
+
+(* the current source: the purity scan of the algebra files (every augmented assignment, subscript store, out= and
+   fill/sort applied to a value that may alias self, an argument or what their methods return) finds nothing ... *)
+Theorem C18_no_inplace_updates : inplace_updates = [] /\ t_pure cur = true.
+Proof. exact (conj cur_no_inplace_updates cur_pure). Qed.
+Print Assumptions C18_no_inplace_updates.
+
+(* ... hence, for all histories including the assembly of derived operators (step AssembleDerived: -A, alpha*A, A-B, A*B, ...),
+   an assembled operand keeps its cached weak form *)
+Theorem C18_derived_assembly_keeps_operands : forall (h' : list op) (s : st) (i : nat) (d : desc),
+  observe s i = Some d -> observe (fold_left (step cur) h' s) i = Some d.
+Proof. exact cur_derived_assembly_pure. Qed.
+Print Assumptions C18_derived_assembly_keeps_operands.
+
+(* with an in-place scaling in the algebra (tables with t_pure = false, e.g. seeded change C18-3) the operand's weak form
+   changes when a derived operator is assembled *)
+Theorem C18_inplace_scaling_refuted :
+  observe (run impure [CreateOp KDense 0 None; WeakForm 0]) 0 <>
+  observe (run impure [CreateOp KDense 0 None; WeakForm 0; AssembleDerived 0 3]) 0.
+Proof. exact inplace_scaling_refuted. Qed.
+Print Assumptions C18_inplace_scaling_refuted.
